@@ -170,7 +170,48 @@ def _generator(repo):
     es = _one(_calls(ZR, 'einsum'), 'zernike_remove: einsum')
     if len(es.args) != 3 or es.keywords: raise Refuse('zernike_remove: einsum call changed')
     rem_contract = _einsum_def('removeContract', ast.literal_eval(es.args[0]), '`zernike_remove`: the basis cube contracted with the fitted coefficients')
-    notes.append("zernike_remove: residual = opd - einsum('ijk,i->jk', zernike_basis(<Gen.removeBasisArgs>), zernike_fit(<Gen.removeFitArgs>))")
+    # ---- zernike_remove: the data flow from the two calls through the einsum into the returned expression, translated
+    rbody = [x for x in ZR.body if not (isinstance(x, ast.Expr) and isinstance(x.value, ast.Constant))]
+    asg = {}
+    for x in rbody[:-1]:
+        if not (isinstance(x, ast.Assign) and len(x.targets) == 1 and isinstance(x.targets[0], ast.Name)): raise Refuse('zernike_remove: statement ' + ast.unparse(x)[:80])
+        if x.targets[0].id in asg: raise Refuse('zernike_remove: a name is assigned twice: ' + x.targets[0].id)
+        asg[x.targets[0].id] = x.value
+    for nm in ('opd', 'mask'):
+        if ast.unparse(asg.pop(nm, ast.Constant(0))).replace(' ', '') != f'np.asarray({nm})': raise Refuse(f'zernike_remove: `{nm} = np.asarray({nm})` not found')
+    ops = [ast.unparse(a) for a in es.args[1:]]
+    if not (all(o in asg for o in ops) and isinstance(asg[ops[0]], ast.Call) and ast.unparse(asg[ops[0]].func).split('.')[-1] == 'zernike_basis'
+            and isinstance(asg[ops[1]], ast.Call) and ast.unparse(asg[ops[1]].func).split('.')[-1] == 'zernike_fit'):
+        raise Refuse('zernike_remove: the einsum operands are not (the zernike_basis result, the zernike_fit result): ' + ', '.join(ops))
+    fitname = [k_ for k_, v in asg.items() if v is es]
+    if len(fitname) != 1: raise Refuse('zernike_remove: the einsum result is not assigned to a name')
+    if not isinstance(rbody[-1], ast.Return) or rbody[-1].value is None: raise Refuse('zernike_remove: no final return')
+    def _res(e, depth=0):
+        if isinstance(e, ast.Name):
+            if e.id == 'opd': return 'opd'
+            if e.id == fitname[0]: return 'fit'
+            if e.id in asg and e.id not in ops and depth < 4: return _res(asg[e.id], depth + 1)
+        if isinstance(e, ast.BinOp) and type(e.op) in (ast.Add, ast.Sub):
+            return f"({_res(e.left, depth)} {'+' if isinstance(e.op, ast.Add) else '-'} {_res(e.right, depth)})"
+        if isinstance(e, ast.UnaryOp) and isinstance(e.op, ast.USub): return f'(-{_res(e.operand, depth)})'
+        raise Refuse('zernike_remove: returned expression ' + ast.unparse(e))
+    residual = _res(rbody[-1].value)
+    used = set(ops) | set(fitname)
+    for x in ast.walk(rbody[-1].value):
+        if isinstance(x, ast.Name): used.add(x.id)
+    changed = True
+    while changed:
+        changed = False
+        for k_ in list(used):
+            if k_ in asg:
+                for x in ast.walk(asg[k_]):
+                    if isinstance(x, ast.Name) and x.id in asg and x.id not in used: used.add(x.id); changed = True
+    dead = [k_ for k_ in asg if k_ not in used]
+    if dead: raise Refuse('zernike_remove: assignments that do not reach the result: ' + ', '.join(dead))
+    residual_def = ('/-- `zernike_remove`: the returned expression, per sample, from the input `opd` and `fit` = the einsum of the basis with the fitted\n'
+                    'coefficients (the assignments in between are substituted) -/\n'
+                    f'def removeResidual {{K : Type}} [Add K] [Sub K] [Neg K] (opd fit : K) : K := {residual}\n')
+    notes.append(f"zernike_remove: returns {residual} with fit = einsum('ijk,i->jk', zernike_basis(<Gen.removeBasisArgs>), zernike_fit(<Gen.removeFitArgs>)) — data flow and returned expression translated")
     lean = ('/-- `zernike_compose`: the Noll index multiplied by the coefficient at 0-based position `i` -/\n'
             f'def composeNoll (i : Int) : Int := {lean_idx}\n\n'
             '/-- argument record of `zernike_fit` (and, without `normalize`, of `zernike_remove`) -/\n'
@@ -184,7 +225,7 @@ def _generator(repo):
             f'def removeFitArgs {{O Mk Md C : Type}} (a : RemoveArgs O Mk Md C) : FitArgs O Mk Md C :=\n  {rem_fit}\n\n'
             '/-- `zernike_remove`: the arguments of its `zernike_basis` call -/\n'
             f'def removeBasisArgs {{O Mk Md C : Type}} (a : RemoveArgs O Mk Md C) : BasisArgs Mk Md C :=\n  {rem_basis}\n\n'
-            + select_def + '\n' + fit_contract + '\n' + rem_contract + '\n' + ravel_def + '\n' + reshape_def)
+            + select_def + '\n' + fit_contract + '\n' + rem_contract + '\n' + residual_def + '\n' + ravel_def + '\n' + reshape_def)
     return lean, notes
 
 MODULES = [{'name': 'ZernikeCalls', 'src': 'lentil/zernike.py', 'generator': _generator, 'props': ['C12']}]
